@@ -66,12 +66,15 @@ pub struct Case {
     pub any_fault: Option<(u64, Kind, Action)>,
     /// permission bits the application gave a by-path source before the call (0 = as created, 0600)
     pub source_mode: u32,
+    /// the write level is exactly full of entries read since their insertion (stackmx::CROWDED_WRITER): the
+    /// operation's maintenance has entries to re-queue
+    pub crowded: bool,
 }
 
 impl Case {
     fn to_json(&self) -> Value {
         json!({"cell": self.cell.to_json(), "planted": size_code(self.planted), "maintain": self.maintain,
-               "fault": self.fault.map(|f| json!([f.0, f.1])), "builder": self.builder, "source_mode": self.source_mode,
+               "fault": self.fault.map(|f| json!([f.0, f.1])), "builder": self.builder, "source_mode": self.source_mode, "crowded": self.crowded,
                "any_fault": self.any_fault.map(|(k, kind, a)| json!([k, format!("{:?}", kind), crate::props::c18::action_json(&a)]))})
     }
     fn from_json(v: &Value) -> Case {
@@ -82,6 +85,7 @@ impl Case {
             fault: v["fault"].as_array().map(|a| (a[0].as_i64().unwrap(), a[1].as_i64().unwrap() as i32)),
             builder: v["builder"].as_u64().unwrap_or(0) as u8,
             source_mode: v["source_mode"].as_u64().unwrap_or(0) as u32,
+            crowded: v["crowded"].as_bool().unwrap_or(false),
             // (the kind is re-derived from the fault-free trace on replay)
             any_fault: v["any_fault"].as_array().map(|a| (a[0].as_u64().unwrap(), Kind::Other, crate::props::c18::action_from(&a[2]))),
         }
@@ -125,7 +129,9 @@ fn run_case(case: &Case) -> CellRun {
     });
     crate::ops::BUILDER_STYLE.with(|b| b.set(case.builder));
     crate::ops::SOURCE_MODE.with(|m| m.set(case.source_mode));
+    CROWDED_WRITER.with(|c| c.set(case.crowded));
     let run = run_cell(&case.cell);
+    CROWDED_WRITER.with(|c| c.set(false));
     crate::ops::SOURCE_MODE.with(|m| m.set(0));
     crate::ops::BUILDER_STYLE.with(|b| b.set(0));
     PLANTED_SIZE.with(|s| s.set(Size::Five));
@@ -207,6 +213,23 @@ pub fn check_order_opt(run: &CellRun, expect_flush: bool, strict_mode: bool) -> 
     let root = run.dirs.write.to_string_lossy().into_owned();
     let mut bad = order_violations_opt(&run.trace, &root, expect_flush, strict_mode);
     let pubs: Vec<(usize, &Ev)> = run.trace.iter().enumerate().filter(|(_, e)| is_publication(e, &root)).collect();
+    // entries that were visible before the operation began are never written, truncated or re-moded by it (a mode
+    // call that names such an entry by path can land on whatever another process has put there in the meantime)
+    let visible_before: std::collections::BTreeMap<u64, &String> = run.before[0]
+        .iter()
+        .filter(|(rel, n)| n.kind == 'f' && !rel.contains(".kismet_temp") && !rel.rsplit('/').next().unwrap_or("").starts_with('.'))
+        .map(|(rel, n)| (n.meta.ino, rel))
+        .collect();
+    for e in &run.trace {
+        if !e.ok() || e.ino == 0 {
+            continue;
+        }
+        if let Some(rel) = visible_before.get(&e.ino) {
+            if is_content(e, e.ino) || matches!(e.kind, Kind::Chmod | Kind::Fchmod) {
+                bad.push(("modified-after-publication".into(), format!("{} on {}, an entry that was already visible when the operation began", e.func, rel)));
+            }
+        }
+    }
     // a fresh entry under the key name must come from a monitored publication
     for (rel, node) in write_entries(run) {
         let fresh = run.before[0].get(&rel).map(|b| b.meta.ino) != Some(node.meta.ino);
@@ -306,7 +329,14 @@ fn base_cases() -> Vec<Case> {
                             builder: 0,
                             any_fault: None,
                             source_mode: 0,
+                            crowded: false,
                         });
+                        // maintenance with work to do: the write level full of entries read since their insertion
+                        if maintain && size == Size::One {
+                            let mut c = out.last().unwrap().clone();
+                            c.crowded = true;
+                            out.push(c);
+                        }
                         // a by-path source the application has already made read-only (or otherwise re-moded)
                         if auto_sync && !maintain && matches!(op, MOp::Set | MOp::Put) {
                             for mode in [0o444u32, 0o400, 0o644, 0o640, 0o664, 0o666, 0o606] {
@@ -383,11 +413,11 @@ fn record(case: &Case, rep: &mut Report) {
 pub fn run(_tier: Tier, shard: Shard, rep: &mut Report) {
     rep.rule = "every publishing path (set/put by path and by temp-file object onto absent and present keys, ensure and \
         get_or_update misses, Replace on a primary and on a secondary hit, Promote from plain and sharded read-only levels, key living \
-        in the secondary shard) x writer {plain, sharded} x value size {0 B, 1 B, 3 x 8 KiB} x maintenance {fires, does not} x \
+        in the secondary shard) x writer {plain, sharded} x value size {0 B, 1 B, 3 x 8 KiB} x maintenance {fires, does not, fires on a write level full of entries read since insertion} x \
         auto_sync {on, off as a control of the monitor}, the builder obtained by CacheBuilder::new(), by Default::default() and by \
         re-using a builder after take() (auto-sync never mentioned: it must default to on), by-path sources also handed over with \
         mode 0444, 0400, 0644, 0640, 0664, 0666 and 0606; per published inode the trace must show last content event < successful \
-        fsync < chmod stripping write bits <= publication, and no content/mode event afterwards. Then, for every auto_sync cell, each \
+        fsync < chmod stripping write bits <= publication, and no content/mode event afterwards, nor any on an entry that was visible before the operation began. Then, for every auto_sync cell, each \
         fsync fails in turn with EIO and ENOSPC: the call must fail (or panic with the documented message for by-path set/put) and \
         that inode must never be published. Then every other call of each auto_sync cell fails in turn in every plausible way (short \
         writes, EXDEV/EMLINK/ESTALE on rename and link, failure after the effect, ...): whatever the library does about it, the same \
